@@ -976,6 +976,52 @@ func c07MustDecrypt(c *Ctx) {
 				}
 			}
 		}
+		if !ok {
+			// decided on values: every path to the call takes the "is nil" outcome of a `c.input == nil` test (named
+			// conditions and nested ifs included), and no assignment of a non-nil c.input reaches the call without
+			// passing such a test again
+			isTest := func(v ssa.Value) (eq bool, is bool) {
+				bo, isBo := v.(*ssa.BinOp)
+				if !isBo || (bo.Op != token.EQL && bo.Op != token.NEQ) || !isNilConst(bo.Y) {
+					return false, false
+				}
+				ld, isLd := bo.X.(*ssa.UnOp)
+				if !isLd {
+					return false, false
+				}
+				fa, isFA := ld.X.(*ssa.FieldAddr)
+				if !isFA || fieldName(fa.X.Type(), fa.Field) != "input" {
+					return false, false
+				}
+				return bo.Op == token.EQL, true
+			}
+			saved := condEval
+			condEval = func(v ssa.Value) (bool, bool) {
+				if eq, is := isTest(v); is {
+					return !eq, true // c.input is NOT nil
+				}
+				if saved != nil {
+					return saved(v)
+				}
+				return false, false
+			}
+			reachable := reach([]*ssa.BasicBlock{rd.Blocks[0]}, deadEdges(rd))[call.Block()]
+			// from a store of a non-nil c.input
+			instrsOf(rd, func(_ *ssa.BasicBlock, in ssa.Instruction) {
+				if st, isSt := in.(*ssa.Store); isSt && !reachable {
+					if fa, isFA := st.Addr.(*ssa.FieldAddr); isFA && fieldName(fa.X.Type(), fa.Field) == "input" && !isNilConst(st.Val) {
+						if reach([]*ssa.BasicBlock{st.Block()}, deadEdges(rd))[call.Block()] && st.Block() != call.Block() {
+							reachable = true
+						}
+					}
+				}
+			})
+			condEval = saved
+			if !reachable {
+				c.Holds(rule, fname(rd), fmt.Sprintf("readRecord call #%d only when no decrypted application data is pending", n), "assuming c.input is not nil, the call is unreachable (decided on values)", call.Pos())
+				continue
+			}
+		}
 		c.Check(ok, rule, fname(rd), fmt.Sprintf("readRecord call #%d only when no decrypted application data is pending", n), "", "Read can pull the next record while c.input still holds undelivered bytes: a close_notify (or error) in that record makes Read report the end of the stream before those bytes are delivered", call.Pos())
 	}
 	if n < 2 {
